@@ -25,7 +25,15 @@ import (
 )
 
 func init() {
-	core.Register(&core.Family{Name: "conc", Exec: execCase, Classify: func(k byte, b []byte) string { return "schedule" }, Recorded: true})
+	core.Register(&core.Family{Name: "conc", Exec: execCase, Classify: func(k byte, b []byte) string {
+		switch k {
+		case 'R':
+			return "race-stress"
+		case 'B':
+			return "stress"
+		}
+		return "schedule"
+	}, Recorded: true})
 	core.Checks["C19"] = check
 }
 
@@ -445,15 +453,41 @@ func raceRun(body []byte) *core.Verdict {
 	var mu sync.Mutex
 	bad := ""
 	report := func(s string) { mu.Lock(); bad = s; mu.Unlock() }
+	subTrees := func() {
+		// the entry trees of the submodules themselves are part of the processed set
+		for _, sn := range []string{"s4", "s6a", "s6b"} {
+			se := yang.ToEntry(ms.SubModules[sn])
+			for _, c := range se.Dir {
+				if ns := c.Namespace(); ns == nil || (ns.Name != "urn:m4" && ns.Name != "urn:m6") {
+					report(fmt.Sprintf("Namespace of %s/%s in the submodule's own tree: %v", sn, c.Name, ns))
+				}
+				if m, err := c.InstantiatingModule(); err != nil || (m != "m4" && m != "m6") {
+					report(fmt.Sprintf("InstantiatingModule of %s/%s in the submodule's own tree: %s %v", sn, c.Name, m, err))
+				}
+				for _, cc := range c.Dir {
+					cc.Namespace()
+					cc.ReadOnly()
+				}
+			}
+		}
+	}
+	start := make(chan struct{})
 	for g := 0; g < n; g++ {
 		wg.Add(1)
 		mode := rng.Intn(3)
+		if g < 4 {
+			mode = 0 // at least four readers, released together: their first queries meet cold caches at the same time
+		}
 		r := rand.New(rand.NewSource(rng.Int63()))
 		go func() {
 			defer wg.Done()
+			<-start
 			for i := 0; i < 30; i++ {
 				switch mode {
 				case 0: // reader: every read-only query of the statement
+					if i == 0 {
+						subTrees()
+					}
 					p := paths[r.Intn(len(paths))]
 					if got := t2.Find(p); got != flat[p] {
 						report("Find(" + p + ") returned another node under concurrency")
@@ -474,22 +508,7 @@ func raceRun(body []byte) *core.Verdict {
 					}
 					var sb strings.Builder
 					e.Print(&sb)
-					// the entry trees of the submodules themselves are part of the processed set
-					for _, sn := range []string{"s4", "s6a", "s6b"} {
-						se := yang.ToEntry(ms.SubModules[sn])
-						for _, c := range se.Dir {
-							if ns := c.Namespace(); ns == nil || (ns.Name != "urn:m4" && ns.Name != "urn:m6") {
-								report(fmt.Sprintf("Namespace of %s/%s in the submodule's own tree: %v", sn, c.Name, ns))
-							}
-							if m, err := c.InstantiatingModule(); err != nil || (m != "m4" && m != "m6") {
-								report(fmt.Sprintf("InstantiatingModule of %s/%s in the submodule's own tree: %s %v", sn, c.Name, m, err))
-							}
-							for _, cc := range c.Dir {
-								cc.Namespace()
-								cc.ReadOnly()
-							}
-						}
-					}
+					subTrees()
 				case 1: // a pipeline on a private set
 					own, err := sharedSet()
 					if err != nil {
@@ -505,6 +524,7 @@ func raceRun(body []byte) *core.Verdict {
 			}
 		}()
 	}
+	close(start)
 	wg.Wait()
 	v := &core.Verdict{OK: bad == "", Class: "race-stress", NT: true, N: int64(n * 30)}
 	if bad != "" {
